@@ -395,7 +395,7 @@ func (m c11) Run(c *core.Ctx) {
 		}
 		m.largeProbe(c, inFunc)
 	}
-	n := c.Pick(400, 8000)
+	n := c.Pick(400, 30000)
 	o := gen.Opts{MaxStmts: 28, MaxDepth: 4, ExprDepth: 3, Try: 0.5, Throw: 0.15, Funcs: 0.6, Shadow: 0.2, LogProb: 0.2,
 		Consts: 0.2, Globals: true, DeepRecursion: 20, Faults: 0.004}
 	for i := 0; i < n; i++ {
